@@ -695,7 +695,10 @@ def merge_measure_contents(notes, other, measure_start, measure_end=None, last=T
             elements = merged[voice]
 
         else:
-            elements = notes[voice]
+            # the notes of this voice, with the forward/backup elements that
+            # gaps (or overlaps) between them require
+            first_onset = notes[voice][0][0] if notes[voice] else measure_start
+            elements, _ = merge_with_voice(notes[voice], [], first_onset)
 
         # backup/forward when switching voices if necessary
         if elements:
